@@ -1,6 +1,6 @@
 (** * C03 — mutable access only for a sole owner, ordered after all former sharers.  Property theorems only. *)
 From Coq Require Import NArith List Bool Arith.
-From TV Require Import Layout SrcFacts Conc ConcProofs ConcX Mech MechProofs MechLog MechProps Extracted.
+From TV Require Import Layout SrcFacts Conc ConcProofs ConcX ConcXProofs Mech MechProofs MechLog MechProps Extracted.
 Import ListNotations.
 Open Scope N_scope.
 
@@ -86,6 +86,16 @@ Theorem C03_protocol_as_written :
   p_uniq Extracted.count_progs = p_uniq good_progs /\ p_drop Extracted.count_progs = p_drop good_progs.
 Proof. split; reflexivity. Qed.
 
+(** ... and those programs, interpreted one instruction per step on the view memory, are safe for EVERY schedule: any
+    number of threads, any interleaving at instruction granularity, stale loads included — no data race, no access
+    after free, no second destroy or free, no value lost at quiescence.  (Proved by a simulation into [Conc.v]:
+    ConcXProofs.xstep_sim; the statement is about the translated programs, so a change of the protocol in the source
+    changes the statement that has to be proved.) *)
+Theorem C03_protocol_as_written_is_safe :
+  forall ls s, xexec Extracted.count_progs xinit ls = Some s -> bad s = false.
+Proof. exact xsafe. Qed.
+
+
 
 
 (** the uniqueness tests, copy-on-write and unwrapping functions (make_mut, make_unique, get_mut, try_unique, try_unwrap,
@@ -106,3 +116,4 @@ Print Assumptions C03_no_race_with_the_writer.
 Print Assumptions C03_acquire_on_the_test_is_necessary.
 Print Assumptions C03_protocol_as_written.
 Print Assumptions C03_functions_are_the_modelled_ones.
+Print Assumptions C03_protocol_as_written_is_safe.
